@@ -97,7 +97,7 @@ func VerifC07Dispatch() {
 	hdrLen := 0
 	idMax, wireMax, free := 2, 4, 1
 	if rt.Tier() > 0 {
-		idMax, wireMax, free = 3, 6, 2
+		idMax, wireMax, free = 2, 5, 2
 	}
 	switch rt.Choose("header", 3) {
 	case 0: // a well-formed header for an arbitrary id (may or may not be a valid protocol id)
